@@ -25,6 +25,7 @@ const (
 	kFloat
 	kSet
 	kSlice
+	kBool
 )
 
 type ruleKind int
@@ -52,6 +53,7 @@ type value struct {
 	d     time.Duration
 	f     float64
 	elems []string
+	b     bool
 }
 
 type leafDef struct {
@@ -102,6 +104,8 @@ var flatDef = typeDef{name: "flat", tagged: true, leaves: []leafDef{
 		set: func(c any, v value) { c.(*FlatCfg).Tags = set(nil, v.elems) }},
 	{name: "Guard", kind: kString, rule: rNonEmpty, tagPath: []string{"guard"}, env: "GUARD", flag: "guard",
 		set: func(c any, v value) { c.(*FlatCfg).Guard = v.s }},
+	{name: "Verbose", kind: kBool, tagPath: []string{"verbose"}, env: "VERBOSE", flag: "verbose",
+		set: func(c any, v value) { c.(*FlatCfg).Verbose = v.b }},
 }}
 
 var nestDef = typeDef{name: "nest", tagged: true, leaves: []leafDef{
@@ -171,7 +175,9 @@ var typeNames = []string{"flat", "nest", "plain", "split"}
 //   0 default, 1 file (initial), 2 environment, 3 flag, 4..6 file rewrite 1..3,
 //   7 decoy file.
 // For one leaf (one seed) the values of different origins are pairwise
-// different, so the winning layer is identifiable from the value alone.
+// different, so the winning layer is identifiable from the value alone
+// (except for bools, and except where the case says that one layer repeats
+// the default's value: LeafCase.EqDef).
 
 const (
 	gDefault = 0
@@ -199,6 +205,10 @@ func leafValue(l *leafDef, seed, gen int, bad bool) value {
 		return value{f: float64(n) + 0.5}
 	case kSet, kSlice:
 		return value{elems: []string{fmt.Sprintf("%c%d", genLetters[gen], seed), fmt.Sprintf("%ck%d", genLetters[gen], gen)}}
+	case kBool:
+		// only two values: bit gen of the seed (the layers of one leaf are
+		// NOT pairwise different for this kind)
+		return value{b: (seed>>uint(gen))&1 == 1}
 	}
 	panic("unknown kind")
 }
@@ -216,6 +226,8 @@ func (l *leafDef) text(v value) string {
 		return strconv.FormatFloat(v.f, 'f', -1, 64)
 	case kSet, kSlice:
 		return strings.Join(v.elems, ",")
+	case kBool:
+		return strconv.FormatBool(v.b)
 	}
 	panic("unknown kind")
 }
@@ -237,6 +249,8 @@ func (l *leafDef) lit(v value) string {
 			qs[i] = strconv.Quote(e)
 		}
 		return "[" + strings.Join(qs, ", ") + "]"
+	case kBool:
+		return strconv.FormatBool(v.b)
 	}
 	panic("unknown kind")
 }
